@@ -35,6 +35,15 @@ class GotranPythonCodePrinter(PythonCodePrinter):
             # An integer raised to an array of integers (e.g. 10**numpy.where(c, -3, 2))
             # is integer arithmetic in numpy, which refuses negative exponents
             expr = sympy.Pow(sympy.Float(int(expr.base)), expr.exp, evaluate=False)
+        elif (
+            expr.base.is_Integer
+            and expr.exp.is_Integer
+            and expr.exp > 0
+            and abs(int(expr.base)) ** int(expr.exp) >= 2**63
+        ):
+            # ... and an integer power that does not fit in 64 bits would be a Python int
+            # that numpy and jax refuse (see _print_Integer)
+            expr = sympy.Pow(sympy.Float(int(expr.base)), expr.exp, evaluate=False)
         return super()._hprint_Pow(expr, rational, sqrt)
 
     def _print_MatrixElement(self, expr):
@@ -46,6 +55,14 @@ class GotranPythonCodePrinter(PythonCodePrinter):
             return f"{self._print(expr.parent)}[{expr.j}]"
         else:
             return super()._print_MatrixElement(expr)
+
+    def _print_Integer(self, expr):
+        # numpy's ufuncs and jax refuse a Python int that does not fit in 64 bits
+        # ("loop of ufunc does not support argument 0 of type int"): such a
+        # constant is written as the float it is converted to anyway
+        if abs(int(expr)) >= 2**63:
+            return self._print_Float(sympy.Float(int(expr)))
+        return super()._print_Integer(expr)
 
     def _print_Float(self, flt):
         value = float(flt)
